@@ -1,4 +1,6 @@
 from specs import KEYS, CHECKS, unit
+import os
+_DEV = {'VERIF_KNOWN': os.environ['C19_DEV_KNOWN']} if os.environ.get('C19_DEV_KNOWN') else {}  # DEV ONLY - remove
 
 KEYS['auth_c19'] = {'pkg': 'sdk/go/auth'}
 # lib/controller/localdb/login_pam.go needs cgo + <security/pam_appl.h> (not installed here);
@@ -6,6 +8,7 @@ KEYS['auth_c19'] = {'pkg': 'sdk/go/auth'}
 C19_PAM_HOOKS = {'lib/controller/localdb/login_pam.go': 'harness/federation_c19/hooks/login_pam_nocgo.go'}
 KEYS['federation_c19'] = {'pkg': 'lib/controller/federation', 'hooks': C19_PAM_HOOKS}
 KEYS['controller_c19'] = {'pkg': 'lib/controller', 'hooks': {'lib/controller/localdb/login_pam.go': 'harness/controller_c19/hooks/login_pam_nocgo.go'}}
+KEYS['keepstore_c19'] = {'pkg': 'services/keepstore'}
 
 CHECKS['C19'] = {
     'ready': False,
@@ -13,9 +16,10 @@ CHECKS['C19'] = {
     'rule': 'TODO',
     'assumptions': [],
     'units': [
-        unit('salt', 'auth_c19', '^TestVerifC19SaltToken$', {'shards': 4, 'checks': 4000}, {'shards': 8, 'checks': 100000, 'timeout': 900}),
-        unit('provider', 'federation_c19', '^TestVerifC19Provider$', {'shards': 4, 'checks': 3000}, {'shards': 8, 'checks': 60000, 'timeout': 900}),
-        unit('conn', 'federation_c19', '^TestVerifC19Conn$', {'shards': 4, 'checks': 1500}, {'shards': 8, 'checks': 30000, 'timeout': 900}),
-        unit('legacy', 'controller_c19', '^TestVerifC19LegacyHandler$', {'shards': 4, 'checks': 1500}, {'shards': 8, 'checks': 30000, 'timeout': 900}),
+        unit('salt', 'auth_c19', '^TestVerifC19SaltToken$', {'shards': 4, 'checks': 4000}, {'shards': 8, 'checks': 100000, 'timeout': 900}, env=_DEV),
+        unit('provider', 'federation_c19', '^TestVerifC19Provider$', {'shards': 4, 'checks': 3000}, {'shards': 8, 'checks': 60000, 'timeout': 900}, env=_DEV),
+        unit('conn', 'federation_c19', '^TestVerifC19Conn$', {'shards': 4, 'checks': 1500}, {'shards': 8, 'checks': 30000, 'timeout': 900}, env=_DEV),
+        unit('legacy', 'controller_c19', '^TestVerifC19LegacyHandler$', {'shards': 4, 'checks': 1500}, {'shards': 8, 'checks': 30000, 'timeout': 900}, env=_DEV),
+        unit('keepstore', 'keepstore_c19', '^TestVerifC19KeepstoreRemoteProxy$', {'shards': 4, 'checks': 1500}, {'shards': 8, 'checks': 30000, 'timeout': 900}, env=_DEV),
     ],
 }
